@@ -52,12 +52,6 @@ theorem expectedLen_first (c : Cfg) (k i m : Nat) (h1 : i ≤ m) (h2 : m < i + k
       rw [if_neg h0, ih (i+1) (by omega) (by omega) (fun j h1 h2 => h j (by omega) h2)]
       omega
 
-/-- how many outputs a complete iteration delivers, and how it ends (`none`: normally;
-    `.item m`: with the exception of element `m`; `.src`: with the source's exception) -/
-def outcome (c : Cfg) : Nat × Option Raised :=
-  let m := Fifo.expectedLen c c.n 0
-  (m, if m < c.n then some (.item m) else if c.srcEnd = .exc then some .src else none)
-
 /-- the outcome depends only on the input length, how the source ends, the failure plans and
     `return_exceptions` — not on capacity or concurrency -/
 theorem expectedLen_congr (c1 c2 : Cfg) (hp : c1.preFail = c2.preFail) (hr : c1.resErr = c2.resErr)
